@@ -126,7 +126,16 @@ def gen_program(rng):
         body.insert(0, ["activate", nm] if kinds[nm] == "act" else ["start", nm])
     body.append(["match", "Never"] if rng.random() < 0.6 else ["match", rng.choice(EVENTS)])
     flows["main"] = body
-    return {"flows": flows, "kinds": kinds}
+    prog = {"flows": flows, "kinds": kinds}
+    # mutually activating flows (activation cycle): the call graph is no longer a DAG
+    if len(actv) >= 2 and rng.random() < 0.08:
+        x, y = rng.sample(actv, 2)
+        flows[x].insert(rng.randrange(0, 2), ["activate", y])
+        flows[y].insert(rng.randrange(0, len(flows[y]) + 1), ["activate", x])
+        if not any(st == ["activate", x] or st == ["activate", y] for st in _walk(body)):
+            body.insert(0, ["activate", x])
+        prog["cycle"] = [x, y]
+    return prog
 
 
 def gen_history(rng, tier):
@@ -213,10 +222,17 @@ _SM = None
 REC = None
 
 
+class _RecList(list):
+    """records are numbered in the order of their START so that consecutive ones can be paired"""
+    def append(self, rec):
+        rec.setdefault("seq", len(self))
+        list.append(self, rec)
+
+
 class _Rec:
     def __init__(self):
         self.depth = 0
-        self.records = []       # outermost calls of the modelled functions
+        self.records = _RecList()       # outermost calls of the modelled functions
         self.pending = None     # EndScope / label restart in progress: dict
         self.end_pending = None  # head reached end of flow: waiting for the decision
         self.ends = []
@@ -601,6 +617,106 @@ def run_impl(case):
     return obs
 
 
+# ============================================================================= operation-sequence tie (T2)
+# Between two recorded calls the interpreter changes the abstract state only by the "environment" operations of
+# Models/LifetimeOps.lean (startChild, status, newAction, coWin, frame).  The difference between the post-state of
+# record k and the pre-state of record k+1 is decomposed into such operations, replayed by the Lean step function
+# `applyOp` (guards included) and the result is compared with the real pre-state: every recorded trace is checked to
+# be a path of the step relation `lifetime_invariant` is proved about.
+
+_STATUS_PATH = {("WAITING", "STARTING"): ["STARTING"], ("WAITING", "STARTED"): ["STARTING", "STARTED"],
+                ("STARTING", "STARTED"): ["STARTED"], ("STARTING", "STOPPING"): ["STOPPING"], ("STARTED", "STOPPING"): ["STOPPING"],
+                ("WAITING", "STOPPING"): ["STARTING", "STOPPING"]}
+
+
+def _gap_request(prev, nxt):
+    """prev / nxt: {"flows": [...], "actions": [...]} snapshots. Returns (request, expected, problem)."""
+    pf = {f["uid"]: f for f in prev["flows"]}
+    nf = {f["uid"]: f for f in nxt["flows"]}
+    pa = {a["uid"]: a for a in prev["actions"]}
+    na = {a["uid"]: a for a in nxt["actions"]}
+    if [f["uid"] for f in prev["flows"]] == [f["uid"] for f in nxt["flows"]] and \
+            all({k: v for k, v in pf[u].items() if k != "args"} == {k: v for k, v in nf[u].items() if k != "args"} for u in pf) and prev["actions"] == nxt["actions"]:
+        return None, None, None
+    st, fu, au, fid, sc = _encode_state({"flows": prev["flows"], "actions": prev["actions"], "nq": 0, "nout": 0})
+    ops = []
+    newflows, newactions = [], []
+    if any(u not in nf for u in pf):
+        return None, None, "an instance disappeared between two calls (clean-up is assumed not to run inside a case)"
+    # new instances
+    for f in nxt["flows"]:
+        if f["uid"] not in pf:
+            if f["parent"] is None or f["parent"] not in nf:
+                return None, None, f"new instance {f['uid']} without a live parent"
+            ops.append({"op": "startChild", "c": fu.get(f["uid"]), "fid": fid.get(f["fid"]), "p": fu.get(f["parent"]), "k": max(0, f["activated"])})
+            newflows.append(fu.get(f["uid"]))
+    # actions: new ones, co-wins
+    removed = [a for a in pa if a not in na]
+    for f in nxt["flows"]:
+        old = pf.get(f["uid"], {"actions": []})["actions"]
+        new = f["actions"]
+        if len(new) < len(old):
+            return None, None, f"action list of {f['uid']} shrank"
+        done = set()
+        for o, n in zip(old, new):
+            if o != n and (o, n) not in done:
+                if o not in removed or n not in pa:
+                    return None, None, f"action list of {f['uid']} changed in an unexpected way ({o} -> {n})"
+                ops.append({"op": "coWin", "loser": fu.get(f["uid"]), "a": au.get(n), "b": au.get(o)})
+                done.add((o, n))
+        for a in new[len(old):]:
+            if a in pa:
+                return None, None, f"{f['uid']} adopted the existing action {a} outside a co-win"
+            ops.append({"op": "newAction", "uid": fu.get(f["uid"]), "a": au.get(a)})
+            newactions.append(au.get(a))
+    # status paths and bookkeeping
+    for f in nxt["flows"]:
+        old = pf.get(f["uid"])
+        ost = old["status"] if old else "WAITING"
+        if ost != f["status"]:
+            path = _STATUS_PATH.get((ost, f["status"]))
+            if path is None:
+                return None, None, f"status of {f['uid']} went {ost} -> {f['status']} outside abort/finish"
+            for s_ in path:
+                ops.append({"op": "status", "uid": fu.get(f["uid"]), "status": s_})
+        if old is not None and f["nis"] and not old["nis"]:
+            # `_advance_head_front`: an activated instance that fails before it was started is marked as not to be restarted
+            ops.append({"op": "noRestart", "uid": fu.get(f["uid"])})
+        ops.append({"op": "frame", "uid": fu.get(f["uid"]), "heads": f["heads"],
+                    "scopes": [[sc.get(n), [fu.get(x) for x in fl], [au.get(x) for x in al]] for n, fl, al in f["scopes"]]})
+    want_f = [{"uid": fu.get(f["uid"]), "fid": fid.get(f["fid"]), "parent": fu.get(f["parent"]), "children": [fu.get(c) for c in f["children"]],
+               "status": f["status"], "activated": f["activated"], "nis": f["nis"], "actions": [au.get(a) for a in f["actions"]],
+               "scopes": [[sc.get(n), [fu.get(x) for x in fl], [au.get(x) for x in al]] for n, fl, al in f["scopes"]],
+               "heads": f["heads"], "main": f["main"]} for f in nxt["flows"]]
+    want_a = sorted(({"uid": au.get(a["uid"]), "status": a["status"], "count": a["count"]} for a in nxt["actions"]), key=lambda x: x["uid"])
+    return {"m": "C06.ops", "st": st, "ops": ops, "newflows": newflows, "newactions": newactions}, (want_f, want_a), None
+
+
+def _gaps(obs):
+    recs = [r for r in obs.get("records", []) if r.get("post") is not None]
+    out = []
+    for a, b in zip(recs, recs[1:]):
+        if a["op"] == "startflow" and a.get("res", {}).get("r") == "create":
+            pass  # the new instance appears in the gap (startChild)
+        out.append((a, b))
+    return out
+
+
+def _gap_items(obs):
+    """[(request | None, expected, problem)] for consecutive fully recorded calls"""
+    if obs.get("gap_off"):
+        return []
+    items = []
+    all_recs = obs.get("records", [])
+    for i in range(len(all_recs) - 1):
+        a, b = all_recs[i], all_recs[i + 1]
+        if a.get("post") is None or a.get("exc") or b.get("seq") != a.get("seq", -1) + 1:
+            continue
+        items.append(_gap_request({"flows": a["post"]["flows"], "actions": a["post"]["actions"]},
+                                  {"flows": b["pre"]["flows"], "actions": b["pre"]["actions"]}))
+    return items
+
+
 # ============================================================================= model (replay)
 
 class _Num:
@@ -663,10 +779,13 @@ def model_requests(case, obs):
             reqs.append(r)
     for e in obs.get("ends", []):
         reqs.append({"m": "C06.enddecision", "status": e["status"], "activated": max(0, e["activated"])})
+    for req, _want, _prob in _gap_items(obs):
+        if req is not None:
+            reqs.append(req)
     return reqs
 
 
-_EXC = {"KeyError": "KeyError", "ValueError": "ValueError", "ColangRuntimeError": "ColangRuntimeError"}
+_EXC = {"KeyError": "KeyError", "ValueError": "ValueError", "ColangRuntimeError": "ColangRuntimeError", "RecursionError": "fuel"}
 
 
 def _cmp_record(rec, m):
@@ -762,6 +881,22 @@ def compare(case, obs, mouts):
             return "end of flow: parked instance's head is not INACTIVE"
         if e["started_pushed"] is not None and e["act"] != "abort" and bool(e["started_pushed"]) != m["started_event"]:
             return f"end of flow: FlowStarted pushed impl {e['started_pushed']} model {m['started_event']}"
+    for req, want, prob in _gap_items(obs):
+        if prob:
+            return "trace is not a path of the operation-sequence semantics: " + prob
+        if req is None:
+            continue
+        m = mouts[i]
+        i += 1
+        if m.get("res") != "ok":
+            return f"operation replay failed: {m}"
+        got_a = sorted(m["actions"], key=lambda x: x["uid"])
+        if m["flows"] != want[0] or got_a != want[1]:
+            for w, g in zip(want[0], m["flows"]):
+                if w != g:
+                    d = {k: (w[k], g.get(k)) for k in w if w[k] != g.get(k)}
+                    return f"trace is not a path of the operation-sequence semantics: after ops {req['ops']} flow {w['uid']} differs (impl, model): {d}"
+            return f"trace is not a path of the operation-sequence semantics: ops {req['ops']}: impl actions {want[1]} model {got_a} (flows {len(want[0])}/{len(m['flows'])})"
     return None
 
 
@@ -805,6 +940,14 @@ def oracle(case, obs):
     kinds, targeted, early = _prog_info(case)
     starts, stops = {}, {}
     finished_rx = set()
+    # instances that were observed STARTED at any observation point (step ends and recorded calls)
+    started_seen = set()
+    for r in obs.get("records", []):
+        for snap_ in (r.get("pre"), r.get("post")):
+            if snap_:
+                started_seen.update(f["uid"] for f in snap_["flows"] if f["status"] == "STARTED")
+    for step in obs["steps"]:
+        started_seen.update(f["uid"] for f in step.get("flows", []) if f["status"] == "STARTED")
     for si, step in enumerate(obs["steps"]):
         if step.get("skipped"):
             continue
@@ -866,6 +1009,10 @@ def oracle(case, obs):
             inst = [f for f in listening if f["fid"] == fid]
             acts = activators(fid)
             if acts and not inst:
+                # an instance that FAILS before it was ever started is deliberately not restarted (it would loop forever)
+                allinst = [f for f in step["flows"] if f["fid"] == fid]
+                if allinst and allinst[-1]["status"] == "STOPPED" and allinst[-1]["uid"] not in started_seen:
+                    continue
                 return f"step {si}: activated flow {fid} has a running activator ({acts[0]['uid']}) but no running instance"
             if not acts and inst:
                 return f"step {si}: activated flow {fid} is still running ({inst[0]['uid']}) although no running flow activates it"
@@ -890,9 +1037,27 @@ def late_starts(obs):
     return late
 
 
+def _has_child_cycle(flows):
+    ch = {f["uid"]: [c for c in f["children"]] for f in flows}
+    state = {}
+
+    def dfs(u):
+        state[u] = 1
+        for c in ch.get(u, []):
+            if c in ch:
+                if state.get(c) == 1 or (state.get(c) is None and dfs(c)):
+                    return True
+        state[u] = 2
+        return False
+
+    return any(state.get(u) is None and dfs(u) for u in ch)
+
+
 def signature(case, obs, msg):
     if not msg:
         return None
+    if ("RecursionError" in msg or "ValueError" in msg) and any(_has_child_cycle(s.get("flows", [])) for s in obs.get("steps", [])):
+        return "activation-cycle-recursion"
     late = late_starts(obs)
     if not late:
         return None
